@@ -58,6 +58,7 @@ func c18ConcurrentDuplicates(x *mc.Cell, pull bool, bound int, maxExec int64) {
 			rq := l2node.NewReq(7, false, pull, &v)
 			mk := n.Mark()
 			s := sched.New(dsPoints)
+			defer s.Close() // also on a diverged replay: parked library goroutines must be released before the world is torn down
 			var retErr [2]error
 			var returned [2]datatransfer.Response
 			for t := 0; t < 2; t++ {
